@@ -287,7 +287,10 @@ def run_unit(u, scratch_root, tier, log_dir):
             if 'ran out of memory' in m or 'Solver ran out' in m or 'VERIFICATION ERROR' in m:
                 r['reason'] = 'memory limit (solver ran out of memory): no verdict'
                 return r
-        if status not in (None, 'success', 'failure') or any(res.get('status') not in ('SUCCESS', 'FAILURE') for res in results):
+        # CBMC 6 marks properties downstream of a failed check as UNKNOWN: with at least one FAILURE the verdict stands
+        # (FAILUREs are reported, UNKNOWNs ignored); without any FAILURE an UNKNOWN/ERROR status means no verdict.
+        n_fail = sum(1 for res in results if res.get('status') == 'FAILURE' and not res.get('description', '').startswith('REACH:'))
+        if status not in (None, 'success', 'failure') or (n_fail == 0 and any(res.get('status') not in ('SUCCESS', 'FAILURE') for res in results)):
             r['reason'] = 'cbmc ended without a verdict (status %s)' % status
             return r
         reach, reach_failed = [], []
@@ -304,6 +307,8 @@ def run_unit(u, scratch_root, tier, log_dir):
             n += 1
             if st == 'SUCCESS':
                 ok += 1
+            elif st != 'FAILURE':
+                pass        # UNKNOWN behind a FAILURE: neither discharged nor reported
             else:
                 failed.append({'property': prop, 'description': desc, 'status': st,
                                'location': res.get('sourceLocation', {})})
